@@ -207,6 +207,12 @@ class GraphParser:
     _RE_QUAL = QUALIFIER + r'[\w\-]+'  # task or fam trigger
     _RE_OPT = r'\??'  # optional output indicator
     _RE_ANDOR = re.compile(r'\s*[&|]\s*')
+    # Node boundaries, for rewriting whole nodes in trigger expressions: task
+    # names may contain "-+%@" so the word boundary "\b" can match inside a
+    # name (e.g. "foo" in "foo-bar"), and must not follow ":" or "[" either.
+    _RE_NODE_START = r'(?<![\w\-+%@:\[^])'
+    _RE_NAME_END = r'(?![\w\-+%@:\[])'
+    _RE_QUAL_END = r'(?![\w\-:\[])'
 
     REC_QUAL = re.compile(_RE_QUAL)
 
@@ -654,17 +660,11 @@ class GraphParser:
                     trig = trig.strip(self.__class__.QUALIFIER)
                     n_trig = TaskTrigger.standardise_name(trig)
                     if n_trig != trig:
-                        if offset:
-                            this = r'\b%s\b%s:%s(?!:)' % (
-                                re.escape(name),
-                                re.escape(offset),
-                                re.escape(trig)
-                            )
-                        else:
-                            this = r'\b%s:%s\b(?![\[:])' % (
-                                re.escape(name),
-                                re.escape(trig)
-                            )
+                        this = (
+                            self._RE_NODE_START
+                            + re.escape(f"{name}{offset}:{trig}")
+                            + self._RE_QUAL_END
+                        )
                         that = f"{name}{offset}:{n_trig}"
                         expr = re.sub(this, that, expr)
                 else:
@@ -674,13 +674,11 @@ class GraphParser:
                             f"Family trigger required: {left} => {right}"
                         )
                     n_trig = TASK_OUTPUT_SUCCEEDED
-                    if offset:
-                        this = r'\b%s\b%s(?!:)' % (
-                            re.escape(name),
-                            re.escape(offset)
-                        )
-                    else:
-                        this = r'\b%s\b(?![\[:])' % re.escape(name)
+                    this = (
+                        self._RE_NODE_START
+                        + re.escape(f"{name}{offset}")
+                        + self._RE_NAME_END
+                    )
                     that = f"{name}{offset}:{n_trig}"
                     expr = re.sub(this, that, expr)
 
@@ -741,10 +739,10 @@ class GraphParser:
                 for mem in self.family_map[name]:
                     m_info.append((mem, offset, ttype))
                     m_expr.append(f"{mem}{offset}:{ttype}")
-                this = r'\b%s%s:%s\b' % (
-                    name,
-                    re.escape(offset),
-                    trig
+                this = (
+                    self._RE_NODE_START
+                    + re.escape(f"{name}{offset}:{trig}")
+                    + self._RE_QUAL_END
                 )
                 if mem_all:
                     that = '(%s)' % '&'.join(m_expr)
@@ -940,7 +938,11 @@ class GraphParser:
                     name, offset, TASK_OUTPUT_SUCCEEDED,
                     self.__class__.OP_OR,
                     name, offset, TASK_OUTPUT_FAILED)
-                expr = expr.replace(this, that)
+                expr = re.sub(
+                    self._RE_NODE_START + re.escape(this) + self._RE_QUAL_END,
+                    that,
+                    expr
+                )
                 trigs += [
                     "%s%s:%s" % (name, offset, TASK_OUTPUT_SUCCEEDED),
                     "%s%s:%s" % (name, offset, TASK_OUTPUT_FAILED)]
